@@ -12,6 +12,7 @@ import vxlib
 # (unit, file, regex, replacement, what it breaks)
 MUTATIONS = {
     'C15': [
+        ('tls', 'tonic/src/transport/channel/service/connector.rs', r'let is_https = uri\.scheme_str\(\) == Some\("https"\);', 'let is_https = tls.is_some() && uri.scheme_str() == Some("https");', 'TLS is used only when a TLS configuration happens to be present'),
         ('tls', 'tonic/src/transport/channel/service/tls.rs', r'if !\(alpn_protocol == Some\(ALPN_H2\) \|\| self\.assume_http2\) \{', 'if !(alpn_protocol == Some(ALPN_H2) || !self.assume_http2) {', 'the http2 opt-out is read the wrong way round'),
         ('tls', 'tonic/src/transport/channel/service/tls.rs', r'let mut roots = RootCertStore::from_iter\(trust_anchors\);', 'let mut roots = RootCertStore::empty(); let _ = trust_anchors;', 'configured trust anchors are dropped'),
         ('tls', 'tonic/src/transport/channel/service/tls.rs', r'config\.alpn_protocols\.push\(ALPN_H2\.into\(\)\);\n        Ok\(Self \{\n            config', 'Ok(Self {\n            config', 'the client does not offer h2'),
